@@ -184,6 +184,8 @@ pub fn run(ctx: &mut Ctx) {
     let t = ctx.tier;
     let avoid = ctx.avoid(crate::props::c05::SIG_G) && ctx.is_generate();
     let run_case = move |h: &History| run_case_with(h, avoid);
-    ctx.campaign("inbound-heavy", CampaignCfg::new(t.pick(60_000, 1_000_000)).shards(16), || history_strategy(40, false, 12, false), run_case);
-    ctx.campaign("long", CampaignCfg::new(t.pick(8_000, 150_000)).shards(16), || history_strategy(120, false, 10, false), run_case);
+    ctx.campaign("inbound-heavy", CampaignCfg::new(t.pick(60_000, 6_000_000)).shards(16), || history_strategy(40, false, 12, false), run_case);
+    let depth = t.pick(4u32, 5);
+    ctx.enumerate_indexed("small-scope-exhaustive", crate::f3::small_space_size(depth), 16, crate::f3::small_history, run_case);
+    ctx.campaign("long", CampaignCfg::new(t.pick(8_000, 900_000)).shards(16), || history_strategy(120, false, 10, false), run_case);
 }
